@@ -4,7 +4,7 @@ RET(f, i): f may retire the request passed as parameter i.  Base fact: a call
 set_remove(<the request table>, p, ...) / set_clear of it; closed over direct calls and
 function-pointer slots.  One reasoned exception (DESIGN.md 4.1) whose premises are
 re-checked on every run."""
-from .model import sx, walk, is_var, is_field, const_of, vars_in, root_var
+from .model import sx, walk, is_var, is_field, const_of, vars_in, root_var, on_path
 from . import rules
 
 REQ_T = 'struct iauth_request *'
@@ -44,7 +44,7 @@ def exception_premises(P):
     for f in P.fns.values():
         for s in f.sites():
             for lv in P.written_lvalues(s):
-                if any(is_field(x, 'auth_username') for x in walk(lv)):
+                if on_path(lv, 'auth_username'):
                     writers.append(s)
     for s in writers:
         def sets_ident(t):
